@@ -12,10 +12,12 @@
                 field dumps, hashes), exhaustive
       raw       all_instances(<family>, None): EVERY point of the parameter space (12 500 instances) with the
                 library's own is_valid verdict and whether the validated enumeration contains it
-      space     get_all_tokenizers() complete (5 878 656): count, distinct names, distinct hash() values,
-                name set == the spec's product set (missing / extra counted exactly), thorough: is_valid and
-                is_legacy_equivalent on every member, hash() of every member in two more interpreter
-                processes (PYTHONHASHSEED = 1 / random)
+      space     get_all_tokenizers() complete (5 878 656; both tiers): count, distinct names, name set == the
+                spec's product set (missing / extra counted exactly), distinct hash() values (quick: of every
+                4th member, thorough: of all); thorough: is_valid and is_legacy_equivalent on every member,
+                hash() of every member in two more interpreter processes (PYTHONHASHSEED = 1 / random).
+                The enumeration runs under an address-space cap and is skipped when the family enumerations
+                already predict > 3*10^7 members (both are outcomes judged by the oracle, never exit 2)
       tok       seeded sample of enumerated tokenizers + random points of the RAW product (invalid ones
                 included): name grammar, validity, twin (independently built equal object), the same
                 configuration built in 3 other processes (PYTHONHASHSEED 0 / 1 / random)
@@ -665,8 +667,13 @@ def raw_product_sample(rng, n):
     """random points of the RAW product (classes marked unsupported, pre = True, duplicated step tokenizers included)"""
     from maze_dataset.utils import all_instances
 
-    raw = {K: [dump(e) for e in all_instances(b, None)] for K, b in _bases().items() if K in ("coord", "adj", "target", "path")}
-    raw = {K: [c for c in v if typed(c)] for K, v in raw.items()}
+    raw = {}
+    for K, b in _bases().items():
+        if K in ("coord", "adj", "target", "path"):
+            res, xs = _run(lambda: [dump(e) for e in all_instances(b, None)])
+            raw[K] = [c for c in (xs or []) if typed(c)]
+    if not all(raw.values()):  # the unvalidated enumeration yields nothing for some family (judged by the rawcount records)
+        return []
     out = []
     for _ in range(n):
         ps = {"cls": "AOTP" if rng.random() < 0.6 else "AOP"}
@@ -689,6 +696,43 @@ def _brief(r):
         else:
             d[k] = v
     return d
+
+
+MAX_REPORTS_PER_CLAUSE = 12
+
+
+def judge(chk, recs, cans, what):
+    """lib.judge_with_canaries, except that at most MAX_REPORTS_PER_CLAUSE cases per clause are turned into
+    VIOLATION lines / replay files (a broken name grammar fails tens of thousands of records at once);
+    the full per-clause counts go to the evidence (notes.rejected_records_by_clause)"""
+    for i, x in enumerate(recs):
+        x["id"] = i
+    allrecs = list(recs)
+    cans = [(dict(c, id=lib.CANARY_BASE + k), cl) for k, (c, cl) in enumerate(cans)]
+    for k, (c, _cl) in enumerate(cans):  # spread over the batch: every shard layout judges them like ordinary records
+        allrecs.insert((len(allrecs) * (k + 1)) // (len(cans) + 1), c)
+    res = lib.oracle("Trace_TokSpace", allrecs, tag="space", min_per_shard=400)
+    for c, cl in cans:
+        got = res.verdicts.pop(c["id"], [])
+        if cl not in got:
+            raise lib.MachineryError(f"canary not rejected by Trace_TokSpace: expected clause {cl!r}, got {got} (oracle does not bind this field): {json.dumps(c)[:300]}")
+    chk.notes["canaries_rejected"] = chk.notes.get("canaries_rejected", 0) + len(cans)
+    res.records -= len(cans)
+    chk.add_oracle("Trace_TokSpace", res, what)
+    per, kept = {}, {}
+    for rid, clauses in sorted(res.verdicts.items()):
+        keep = []
+        for c in clauses:
+            per[c] = per.get(c, 0) + 1
+            if per[c] <= MAX_REPORTS_PER_CLAUSE:
+                keep.append(c)
+        if keep:
+            kept[rid] = keep
+    if per:
+        chk.notes["rejected_records_by_clause"] = per
+    res.verdicts = kept
+    chk.judge({x["id"]: _brief(x) for x in recs if x["id"] in kept}, res, label="space")
+    return res
 
 
 # ------------------------------------------------------------------ main
@@ -809,8 +853,7 @@ def main(chk: lib.Check) -> int:
     recs += io
 
     # ---- judge
-    cans = canaries()
-    lib.judge_with_canaries(chk, "Trace_TokSpace", recs, cans, label="space", what="element families (enum + raw), whole-space counts, sampled tokenizers x 4 processes, save/load, legacy", case_of=_brief, min_per_shard=400)
+    judge(chk, recs, canaries(), "element families (enum + raw), whole-space counts, sampled tokenizers x 4 processes, save/load, legacy")
 
     # ---- evidence
     seen = set()
